@@ -186,11 +186,15 @@ static char * include_file (char *line)
 static char * wcoll_ctx_resolve_path (struct wcoll_ctx *ctx,
         const char *file, char *buf, int len)
 {
-    if (file[0] == '/')
-        strncpy (buf, file, len - 1);
-    else if ( file[0] == '.'
-            && (file[1] == '/' || (file[1] == '.' && file[2] == '/')))
-       strncpy (buf, file, len - 1);
+    if (file[0] == '/' || ( file[0] == '.'
+            && (file[1] == '/' || (file[1] == '.' && file[2] == '/')))) {
+        /*  A name that does not fit is an error, not its first len-1 bytes */
+        if (strlen (file) >= (size_t) len) {
+            errno = ENAMETOOLONG;
+            return NULL;
+        }
+        strcpy (buf, file);
+    }
     else {
         if (wcoll_ctx_path_lookup (ctx, file, buf, len) < 0)
             return NULL;
